@@ -390,6 +390,35 @@ def guarded_minuend(prog, res):
     res.need(R, 2)
 
 
+def best_buffer_capacity(prog, res):
+    """T8: COVER_best_finish keeps the best dictionary in a buffer whose capacity is recorded in best->dictSize.  The bulk
+    copy into best->dict must be preceded by the growth test `best->dictSize < dictSize` (or the buffer being absent), and
+    that test must see the OLD capacity: no write of best->dictSize may reach it."""
+    R = "T8.best-buffer-capacity"
+    f = prog.fn("COVER_best_finish")
+    isbest = lambda y, fld: y.get("k") == "mem" and y.get("f") == fld and y.get("rec") == "COVER_best_s"
+    grow = []
+    for bid, cond, t, fl in f.branches():
+        c = strip_casts(f.resolve_x(cond))
+        if c is not None and c.get("k") == "bin" and c.get("op") in ("<", ">", "<=", ">=") and any(isbest(y, "dictSize") for y in f.walk_resolved(c)):
+            grow.append(bid)
+    copies = [(b, i) for b, i, c in f.calls(("memcpy", "__builtin_memcpy")) if any(isbest(y, "dict") for y in f.walk_resolved(c["a"][0]))]
+    writes = f.find_roots(lambda x: x.get("k") == "asg" and isbest(strip_casts(x["lhs"]), "dictSize"))
+    res.check(len(grow) == 1 and len(copies) == 1 and writes, R, "shape", f.loc, "one growth test, one copy, %d capacity update(s)" % len(writes),
+              "COVER_best_finish: growth tests %d, copies %d, capacity updates %d" % (len(grow), len(copies), len(writes)))
+    if len(grow) == 1 and copies:
+        g = grow[0]
+        absent = cond_edges(f, lambda c: isbest(c, "dict"), "false") + \
+            guards.rel_edges(f, lambda a_: isbest(a_, "dict"), "==", lambda b_: const_val(strip_casts(b_)) == 0)   # no buffer yet: it is allocated for this size
+        ok = f.must_pass(via_edges=[(g, s_) for s_ in f.succs(g)] + absent, targets=copies)
+        res.check(ok, R, "copy-after-growth-test", f.loc, "the copy into best->dict follows the capacity test", "the best dictionary is copied without the capacity test")
+        stale = [w for w in writes if (g, len(f.blocks[g]["el"])) in f.flow([(w[0], w[1] + 1)])]
+        res.check(not stale, R, "test-sees-old-capacity", f.loc, "best->dictSize is updated only after the growth test",
+                  "best->dictSize is overwritten with the new size before the growth test `best->dictSize < dictSize`: the test is never true, the buffer of "
+                  "the first accepted candidate is never grown and a later, larger candidate is copied past its end")
+    res.need(R, 3)
+
+
 def run(tier):
     res = Result("C18", tier)
     tus, info = extract(["dictBuilder", "compress", "common"])
@@ -403,6 +432,7 @@ def run(tier):
     epochs_within_corpus(prog, res)
     guarded_minuend(prog, res)
     best_rules(prog, res)
+    best_buffer_capacity(prog, res)
     worker_globals(prog, res)
     alloc_rules(prog, res)
     clock_taint(prog, res)
